@@ -20,6 +20,23 @@ ChooseFormat(fflag, opath, inputs) ==
   ELSE IF Len(inputs) = 0 THEN Err("usage")
   ELSE Ok(ExtOf(inputs[1]))
 
+(* bklb / kubectl-bkl (wrapper.go): every argument that names a bkl-         *)
+(* resolvable file (real, or virtual under another supported extension) is  *)
+(* replaced by a file holding the evaluated layers in the format of the     *)
+(* named extension; everything else passes through; a failing evaluation    *)
+(* stops the wrapper before the wrapped program is run.                     *)
+WrapArg(fs, cwd, arg, env) ==
+  LET fm == FileMatch(fs, Abs(cwd, arg)) IN
+  IF ~fm.ok THEN [kind |-> "same", value |-> arg]
+  ELSE LET r == RunLayers(fs, NoRoot, <<Abs(cwd, arg)>>, FALSE, env) IN
+       IF ~r.ok THEN (IF r.err = "undef" THEN [kind |-> "undef"] ELSE [kind |-> "fatal"])
+       ELSE [kind |-> "file", format |-> FormatClass(ExtOf(arg)), outs |-> r.v.outs]
+WrapOp(fs, cwd, args, env) ==
+  LET rs == [i \in DOMAIN args |-> WrapArg(fs, cwd, args[i], env)] IN
+  [exec |-> \A i \in DOMAIN rs : rs[i].kind # "fatal",
+   undef |-> \E i \in DOMAIN rs : rs[i].kind = "undef",
+   argv |-> rs]
+
 (* the two terminal shapes of every tool invocation *)
 ProtocolOK(run) ==
   /\ ~run.timedOut /\ ~run.signaled
